@@ -863,3 +863,49 @@ M('C09-twin-in-form', 'C09', CONN,
   "        if proto not in self.connection.allowed_proto_versions:\n            self.connection._version_mismatch(\n                server_protocol=proto,\n                server_version=status['version'].get('name'))\n\n        self.handle_proto_version(proto)",
   "        if proto in self.connection.allowed_proto_versions:\n            self.handle_proto_version(proto)\n        else:\n            self.connection._version_mismatch(\n                server_protocol=proto,\n                server_version=status['version'].get('name'))",
   expect='silent')
+
+# ---------------------------------------------------------------- C01
+M('C01-length-of-wrong-buffer', 'C01', PACKET,
+  "        VarInt.send(len(packet_buffer.get_writable()), socket)  # Packet Size",
+  "        VarInt.send(len(packet_data), socket)  # Packet Size", expect='violation')
+M('C01-data-length-of-compressed', 'C01', PACKET, "                VarInt.send(len(packet_data), packet_buffer)",
+  "                VarInt.send(len(compressed_data), packet_buffer)", rule='R01.1')
+M('C01-drop-reset', 'C01', PACKET,
+  "                compressed_data = compress(packet_data)\n                packet_buffer.reset()",
+  "                compressed_data = compress(packet_data)", rule='R01.1')
+M('C01-reader-ge-zero', 'C01', CONN, "                if decompressed_size > 0:", "                if decompressed_size >= 0:",
+  rule='R01.2')
+M('C01-loop-overread', 'C01', CONN, "                data = stream.read(length - len(packet_data.get_writable()))",
+  "                data = stream.read(length)", rule='R01.3')
+M('C01-cache-compression-in-thread', 'C01', CONN,
+  "            if self.options.compression_enabled:\n                packet.write(self.socket, self.options.compression_threshold)",
+  "            if self._compress:\n                packet.write(self.socket, self.options.compression_threshold)",
+  edits=[dict(file=CONN, find="            if self.options.compression_enabled:\n                packet.write(self.socket, self.options.compression_threshold)",
+              repl="            if self._compress:\n                packet.write(self.socket, self.options.compression_threshold)"),
+         dict(file=CONN, find="        self.options.compression_enabled = False\n        self.options.compression_threshold = -1\n        self.connected = True",
+              repl="        self.options.compression_enabled = False\n        self.options.compression_threshold = -1\n        self._compress = self.options.compression_enabled\n        self.connected = True")])
+M('C01-no-size-check', 'C01', CONN,
+  "                    assert len(decompressed_packet) == decompressed_size, \\\n                        'decompressed length %d, but expected %d' % \\\n                        (len(decompressed_packet), decompressed_size)\n",
+  "", rule='R01.2')
+M('C01-no-rewind', 'C01', CONN,
+  "                    packet_data.send(decompressed_packet)\n                    packet_data.reset_cursor()",
+  "                    packet_data.send(decompressed_packet)", rule='R01.2')
+M('C01-uncompressed-marker-one', 'C01', PACKET, "                VarInt.send(0, packet_buffer)",
+  "                VarInt.send(1, packet_buffer)", rule='R01.1')
+M('C01-decoder-reads-stream', 'C01', CONN, "                packet.read(packet_data)", "                packet.read(stream)",
+  rule='R01.3')
+M('C01-threshold-when-disabled', 'C01', CONN,
+  "            else:\n                packet.write(self.socket)\n",
+  "            else:\n                packet.write(self.socket, self.options.compression_threshold)\n", rule='R01.1')
+M('C01-wrapper-drops-empty', 'C01', ENC,
+  "    def read(self, length):\n        return self.decryptor.update(self.actual_file_object.read(length))",
+  "    def read(self, length):\n        data = self.actual_file_object.read(length)\n        while not data:\n            data = self.actual_file_object.read(length)\n        return self.decryptor.update(data)",
+  rule='R01.5')
+M('C01-twin-ge-threshold', 'C01', PACKET,
+  "            if len(packet_buffer.get_writable()) > compression_threshold != -1:",
+  "            if len(packet_buffer.get_writable()) >= compression_threshold != -1:", expect='silent')
+M('C01-twin-rename', 'C01', PACKET, "packet_data", "payload", count=5, expect='silent')
+M('C01-twin-hoist-writable', 'C01', PACKET,
+  "        VarInt.send(len(packet_buffer.get_writable()), socket)  # Packet Size\n        socket.send(packet_buffer.get_writable())  # Packet Payload",
+  "        frame = packet_buffer.get_writable()\n        VarInt.send(len(frame), socket)  # Packet Size\n        socket.send(frame)  # Packet Payload",
+  expect='silent')
